@@ -1,6 +1,7 @@
 import OcppProps.CDSim
 import OcppProps.C16
 import OcppProps.C07Fine
+import OcppProps.SFine
 import OcppModel.Expected
 import OcppGen.Skeletons
 
@@ -121,5 +122,36 @@ theorem skel_cqTryQueue : Gen.Skeletons.cqTryQueue = Ocpp.Expected.cqTryQueue :=
 
 example : wf [] (CD.init 1) [.start, .writeFail true, .send "a", .send "b", .writeFail false, .send "c",
     .send "d", .disconnect, .reconnect, .wait] = true := by decide
+
+/-! ### Below quiescence, server dispatcher (per client): who can wait for whom — true in every state of the small-step
+model `Ocpp.ServerFine` (`OcppProps/SFine.lean`) -/
+
+/-- the server pump has a step everywhere except at its select, inside `network.Write`, and in front of the outcome mutex
+    while the reader holds it -/
+theorem sfine_pump_waits_only_at (s : Ocpp.ServerFine.St) (h : Ocpp.ServerFine.pumpStep s = none) :
+    s.pump = .sel ∨ (∃ hh, s.pump = .wr hh) ∨ (∃ w hh, s.pump = .cb w hh ∧ Ocpp.ServerFine.readerHolds s = true) :=
+  SFine.pump_waits_only_at s h
+
+/-- the reader (which holds the outcome mutex only over such steps) never waits -/
+theorem sfine_reader_never_blocks (s : Ocpp.ServerFine.St) (h : s.reader ≠ .idle) : (Ocpp.ServerFine.readerStep s).isSome = true :=
+  SFine.reader_never_blocks s h
+
+/-- `DeleteClient` / `ClearClientPendingRequest` never wait -/
+theorem sfine_link_never_blocks (s : Ocpp.ServerFine.St) (h : s.link ≠ .idle) : (Ocpp.ServerFine.step s .lstep).isSome = true :=
+  SFine.link_never_blocks s h
+
+/-- a sender posts its wake-up without waiting for the pump -/
+theorem sfine_sender_never_blocks (s : Ocpp.ServerFine.St) (h : s.mid > 0) : (Ocpp.ServerFine.step s .notify).isSome = true :=
+  SFine.sender_never_blocks s h
+
+/-- a taken ready slot is always freed by the pump at its select -/
+theorem sfine_slot_is_freed (s : Ocpp.ServerFine.St) (hs : s.pump = .sel) (hr : s.ready ≠ .empty) :
+    (Ocpp.ServerFine.step s .takeReady).isSome = true ∨ (Ocpp.ServerFine.step s .takeOther).isSome = true :=
+  SFine.slot_is_freed s hs hr
+
+/-- both outcomes of `network.Write` return the pump -/
+theorem sfine_write_returns (s : Ocpp.ServerFine.St) (hh : Nat) (hp : s.pump = .wr hh) :
+    (Ocpp.ServerFine.step s .writeOk).isSome = true ∧ (Ocpp.ServerFine.step s .writeFail).isSome = true :=
+  SFine.write_returns s hh hp
 
 end C07
